@@ -121,6 +121,11 @@ def check(model: Model, rep: Report, tier: str):
         share_rule(rep, model, u1, "C05.K9", "the copies a repetition appends end up with the same operation sequence as the block they were copied from: apply_modifiers_to_self "
                    "unrolls the nested blocks of EVERY copy -- it recurses over all nodes of the graph as it is after repeat() (= C06.U1 recursion)",
                    keep=lambda o: "recursion" in o["construct"] or "recursion" in o.get("detail", ""))
+    from .c04 import duration_rule as _d
+    with rep.isolated():
+        share_rule(rep, model, _d, "C05.K11", "a copy reports the duration of its original wherever it is placed: a block's duration is its latest end minus its earliest start, over "
+                   "all its operations (= C04.D1/D2) -- once a listing has handed the block's relation to its heads the inner times are absolute, and a 'duration' that is only the "
+                   "latest end makes the copy nested behind other operations longer than the stand-alone original")
 
 
 # Reviewed sites where one operation is given the link OBJECT another operation holds (function qualname -> why it is there).
